@@ -41,6 +41,8 @@ type Explorer struct {
 	Stats       SolverStats
 	TimedOut    bool
 	PathCapHit  bool
+	ViolCapHit  bool // stopped early: enough candidate counterexamples are in hand
+	violations  int
 }
 
 func (ex *Explorer) push(prefix []int64) {
@@ -110,6 +112,15 @@ func (ex *Explorer) done(r *PathResult) {
 	}
 	if !ex.Deadline.IsZero() && time.Now().After(ex.Deadline) && (len(ex.work) > 0 || ex.busy > 0) {
 		ex.TimedOut = true
+		ex.stopped = true
+	}
+	for _, ob := range r.Obligations {
+		if (ob.Verdict == "sat" || ob.Verdict == "ground-false") && !strings.HasPrefix(ob.Label, "inv:") {
+			ex.violations++
+		}
+	}
+	if ex.violations >= 40 && !ex.stopped && (len(ex.work) > 0 || ex.busy > 0) {
+		ex.ViolCapHit = true
 		ex.stopped = true
 	}
 	ex.mu.Unlock()
